@@ -712,6 +712,91 @@ Record fixed_range := { fr_bits : Z; fr_num : Z; fr_den : Z; fr_zp : Z; fr_sym :
   return '\n'.join(out)
 
 
+def scope_tokens(path, fn):
+  """Recognise `scope = ''; for i in op.outputs: if i != -1: scope += ...;
+  return scope` and return the per-output token list."""
+  body = [st for st in fn.body if not (
+      isinstance(st, ast.Expr) and isinstance(st.value, ast.Constant))]
+  if not (len(body) == 3 and isinstance(body[0], ast.Assign) and
+          isinstance(body[0].value, ast.Constant) and body[0].value.value == '' and
+          isinstance(body[1], ast.For) and isinstance(body[2], ast.Return)):
+    fail(path, fn, 'scope function is not init / for / return')
+  var = body[0].targets[0].id
+  if ast.unparse(body[2].value) != var:
+    fail(path, fn, 'scope function does not return the accumulator')
+  loop = body[1]
+  if ast.unparse(loop.iter) != 'op.outputs' or loop.orelse:
+    fail(path, loop, 'scope loop does not iterate op.outputs')
+  idx = loop.target.id
+  if not (len(loop.body) == 1 and isinstance(loop.body[0], ast.If) and
+          ast.unparse(loop.body[0].test) == f'{idx} != -1' and
+          not loop.body[0].orelse):
+    fail(path, loop, 'scope loop body is not `if idx != -1:`')
+  toks = []
+  alias = {}
+  for st in loop.body[0].body:
+    if isinstance(st, ast.Assign) and len(st.targets) == 1 and isinstance(
+        st.targets[0], ast.Name):
+      if st.targets[0].id == var:
+        # `scope = ...` inside the loop: the accumulator is overwritten, only
+        # the pieces after the last overwrite survive per iteration AND all
+        # earlier iterations are lost: not a flat_map; model it explicitly.
+        toks = ['TReset']
+        txt = ast.unparse(st.value)
+        for a, b in alias.items():
+          txt = txt.replace(a, b)
+        if txt != f'tfl_flatbuffer_utils.get_tensor_name(subgraph_tensors[{idx}])':
+          fail(path, st, f'unsupported scope overwrite {txt}')
+        toks.append('TName x')
+        continue
+      alias[st.targets[0].id] = ast.unparse(st.value)
+      continue
+    if not (isinstance(st, ast.AugAssign) and isinstance(st.op, ast.Add) and
+            ast.unparse(st.target) == var):
+      fail(path, st, 'unsupported statement in scope loop')
+    v = st.value
+    if isinstance(v, ast.Constant) and isinstance(v.value, str):
+      toks += [f'TLit {ord(c)}' for c in v.value]
+      continue
+    txt = ast.unparse(v)
+    for a, b in alias.items():
+      txt = txt.replace(a, b)
+    if txt != f'tfl_flatbuffer_utils.get_tensor_name(subgraph_tensors[{idx}])':
+      fail(path, st, f'unsupported scope piece {txt}')
+    toks.append('TName x')
+  return toks
+
+
+def gen_scopes(ctx):
+  out = [HEADER, """(* scope string as a token list: tensor names and literal characters *)
+Inductive stok := TName (tensor : Z) | TLit (char : Z) | TReset.
+Definition stok_eqb (a b : stok) : bool :=
+  match a, b with
+  | TName x, TName y => Z.eqb x y | TLit x, TLit y => Z.eqb x y
+  | TReset, TReset => true | _, _ => false end.
+(* an assignment to the accumulator discards everything before it *)
+Fixpoint after_reset (acc l : list stok) : list stok :=
+  match l with
+  | [] => acc
+  | TReset :: r => after_reset [] r
+  | t :: r => after_reset (acc ++ [t]) r
+  end.
+"""]
+  for rel, cls, name in (('calibrator.py', 'Calibrator', 'scope_calibrator'),
+                         ('params_generator.py', 'ParamsGenerator',
+                          'scope_params_generator')):
+    path, tree = parse(ctx.root, rel)
+    fn = find_func(path, tree, '_get_op_scope', cls)
+    toks = scope_tokens(path, fn)
+    out.append(f'(* {rel}:{fn.lineno} {cls}._get_op_scope *)')
+    body = ('flat_map (fun x => if negb (Z.eqb x (-1)) then ['
+            + '; '.join(toks) + '] else []) outputs')
+    if 'TReset' in toks:
+      body = f'after_reset [] ({body})'
+    out.append(f'Definition {name} (outputs : list Z) : list stok :=\n  {body}.\n')
+  return '\n'.join(out)
+
+
 def gen_recipes(ctx):
   """Shipped recipe files as jrule-like raw data (Gen/Recipes.v)."""
   out = [HEADER, 'From VF Require Import Gen.Enums Gen.Configs.\n']
@@ -794,4 +879,5 @@ def generate(ctx):
   files['Recipes.v'] = gen_recipes(ctx)
   files['InstChecks.v'] = gen_instchecks(ctx)
   files['MatDesc.v'] = gen_matdesc(ctx)
+  files['Scopes.v'] = gen_scopes(ctx)
   return files
